@@ -50,14 +50,14 @@ AS_CONV = [
 PROPS = {
     'C19': dict(units=['mapper'], level='proof', trusted_base=TB_MAPPER, assumptions=AS_MAPPER, witness='mapper'),
     'C01': dict(units=['mapper'], level='proof', trusted_base=TB_MAPPER, assumptions=AS_MAPPER, witness='mapper', rests_on=['C19']),
-    'C02': dict(units=['mapper'], level='proof', trusted_base=TB_MAPPER, assumptions=AS_MAPPER, witness='mapper', rests_on=['C19', 'C01']),
+    'C02': dict(units=['mapper'], level='proof', trusted_base=TB_MAPPER, assumptions=AS_MAPPER, witness='mapper', rests_on=['C19', 'C01', 'C03']),
     'C03': dict(units=['mapper'], level='proof', trusted_base=TB_MAPPER, assumptions=AS_MAPPER + ['"held" is read as "considered pressed by the mapper"; for layouts without absorbing mappings and histories without release-all the universal client proves that this is exactly the set of physically held keys'], witness='mapper', rests_on=['C19']),
     'C06': dict(units=['mapper'], level='proof', trusted_base=TB_MAPPER, assumptions=AS_MAPPER + ['ONLY the reset clause is decided (after every physical key has been released, and after release_all, nothing is considered pressed and nothing is held on the virtual keyboard); "answers every subsequent event sequence exactly as a new mapper" is a relation between two runs (the fields mapped_absorbed_keys / absorbing_trigger / repeating_trigger may keep stale values) and is not expressible as a single-run contract: NOT claimed'], witness='mapper', rests_on=['C19', 'C01']),
     'C08': dict(units=['mapper'], level='proof', trusted_base=TB_MAPPER, assumptions=AS_MAPPER + [
                     'claimed for layouts in which every mapping with an absorbing list outputs a non-modifier key; the complementary shape is known finding D8 (known_findings.txt), replayed on every run',
                     'clause (ii) is proved for the end of the step (if the step pressed a non-modifier key, the absorbed key is not held afterwards unless a mapping in effect outputs it), not for every instant inside the step'],
-                witness='mapper', rests_on=['C19']),
-    'C09': dict(units=['mapper'], level='proof', trusted_base=TB_MAPPER, assumptions=AS_MAPPER, witness='mapper'),
+                witness='mapper', rests_on=['C19', 'C03']),
+    'C09': dict(units=['mapper'], level='proof', trusted_base=TB_MAPPER, assumptions=AS_MAPPER, witness='mapper', rests_on=['C03']),
     'C10': dict(units=['loop'], level='proof', trusted_base=TB_LOOP, assumptions=AS_LOOP, witness='loop'),
     'C11': dict(units=['loop'], level='proof', trusted_base=TB_LOOP, assumptions=AS_LOOP, witness='loop', rests_on=['C09']),
     'C12': dict(units=['loop'], level='proof', trusted_base=TB_LOOP, assumptions=AS_LOOP, witness='loop'),
@@ -67,7 +67,7 @@ PROPS = {
                     'E5 accessors: CHAR_ACCESS_MAP.get / US_KEYBOARD_LAYOUT.get are assumed to be functions of their argument (uninterpreted cam_entry / ukl_row); that these functions ARE the US-QWERTY layout is decided by the complete enumeration tables_enum (every Unicode scalar value, every row), reported as enumerative',
                     'assumed contract on <Vec<T> as Extend<&T>>::extend (appends the items the argument yields; a &Vec yields its elements in order), used for the trigger-side and output-side key lists'],
                 assumptions=AS_CONV + [
-                    'NOT under contract (named, unproved): find_alias_mappings (which definitions the table lists for an alias name, in which order: the claims are relative to the table it returns), the meaning of "the same trigger set" in the repeat-only pass (FromSet: sort + HashMap; only its frame is proved: triggers/outputs untouched, only identity mappings appended), the repeat and absorbing fields of the produced mappings, and the equivalence of spellings (parser, out of reach)',
+                    'NOT under contract (named, unproved): the meaning of "the same trigger set" in the repeat-only pass (FromSet: sort + HashMap; only its frame is proved: triggers/outputs untouched, only identity mappings appended) and therefore the repeat modes of the FINAL layout (convert_single / convert_row ensure the repeat mode and absorbing list of every mapping they produce, before that pass), and the equivalence of spellings (parser, out of reach)',
                     'an alias name that occurs twice among the trigger modifiers is resolved on the output side to its LAST trigger-side occurrence (what the code does; the statement does not say)'],
                 witness='loader', extras=['tables_enum']),
     'C17': dict(units=['udev'], level='proof', extras=['udev_enum'], witness=None,
@@ -95,6 +95,6 @@ PROPS = {
                     '"physically pressed" is read through the mapper: the theorems are stated per step over what the mapper considers pressed (a foreign key is never absorbed, so it is considered pressed from its press to its release; after a release-all the mapper has forgotten keys that are still physically down, as the statement of C12 intends)',
                     '"with an empty layout the output stream equals the input stream" is proved for every event that is not ill-formed (a press of a key that is down / a release of a key that is up produces no output, C09)',
                     'in-effect clauses: "no other mapping also outputs it" is read as: every mapping of the layout that outputs the key has the same trigger, output, repeat and absorbing list as the mapping in effect'],
-                witness='mapper', rests_on=['C19'], extras=['anymod_bounded']),
-    'C07': dict(units=['mapper'], level='proof', trusted_base=TB_MAPPER, assumptions=AS_MAPPER, witness='mapper', rests_on=['C19']),
+                witness='mapper', rests_on=['C19', 'C03'], extras=['anymod_bounded']),
+    'C07': dict(units=['mapper'], level='proof', trusted_base=TB_MAPPER, assumptions=AS_MAPPER, witness='mapper', rests_on=['C19', 'C03']),
 }
